@@ -22,23 +22,45 @@ def corpus(tier, seed):
         items.append((('nl', nl.to_json(), 'verilog'), 3))
         items.append((('nl', nl.to_json(), 'bench'), 9))
     for nl in netlist.g2_shapes():
-        for style in ('bench', 'verilog', 'lean'):
+        for style in ('bench', 'verilog', 'lean', 'vbf'):
             items.append((('nl', nl.to_json(), style), 3))
         items.append((('nl', nl.to_json(), 'lean'), 17))
     for j, nl in enumerate((netlist.g3_random(seed, 40) if tier == 'quick' else netlist.g3_random(seed, 700) + netlist.g3_random(seed + 1000, 200, max_in=8, max_gates=24, max_dff=4))):
         items.append((('nl', nl.to_json(), ('bench', 'verilog', 'lean')[j % 3]), (3, 9, 8, 1)[j % 4]))
     for r in netlist.G4: items.append((r, 3))
-    return [(it[0], it[1], m) for it in items for m in (4, 8)]
+    out = [(it[0], it[1], m) for it in items for m in (4, 8)]
+    # performance options + a second propagation on the same simulator object (fresh stimulus, memory as the first run left it)
+    for nl in netlist.g2_shapes():
+        for k, style in enumerate(('bench', 'verilog', 'lean')):
+            out.append((('nl', nl.to_json(), style), 3, (4, 8)[k % 2], ('reuse2', 'reuse+strip2', 'reuse2')[k]))
+    for j, nl in enumerate(netlist.g3_random(seed + 7, 24 if tier == 'quick' else 200)):
+        out.append((('nl', nl.to_json(), ('bench', 'verilog', 'lean')[j % 3]), (3, 9)[j % 2], (4, 8)[(j // 2) % 2], ('reuse2', 'reuse+strip2', 'strip', 'reuse')[j % 4]))
+    return out
 
 
 def planes(arr, slot, b, m):
     return (arr[slot, 0, b], arr[slot, 1, b], arr[slot, 2, b] if m == 8 else lanes.ZERO)
 
 
-def build(c, sims, m):
-    s = LogicSim(c, sims, m=m)
+def mksim(c, sims, m, opt):
+    return LogicSim(c, sims, m=m, c_reuse='reuse' in opt, strip_forks='strip' in opt)
+
+
+def build(c, sims, m, opt=''):
+    s = mksim(c, sims, m, opt)
     ins = lanes.symbolize(s)
     lanes.simulate(s)
+    if opt.endswith('2'):
+        first = {('first',) + k: v for k, v in ins.items()}
+        ins = {}
+        for idx in __import__('numpy').ndindex(s.s.shape): s.s[idx] = lanes.LV(lanes.bv(s.s[idx]))
+        for i in range(s.s_len):
+            for p in range(3):
+                for b in range(s.c.shape[-1]):
+                    v = z3.BitVec(f'j{i}_p{p}_b{b}', 8)
+                    s.s[0, i, p, b] = lanes.LV(v); ins[(i, p, b)] = v
+        lanes.simulate(s)
+        ins.update(first)
     return s, ins
 
 
@@ -72,10 +94,16 @@ def obligations(c, s, ins, sims, m, Z=lanes.ZERO, O=lanes.ONES, mkw=None):
     return obl, side, wvars
 
 
-def concrete(recipe, sims, m, in_bytes, w_bytes):
+def concrete(recipe, sims, m, in_bytes, w_bytes, opt=''):
     c = netlist.from_recipe(recipe)
-    s = LogicSim(c, sims, m=m)
-    for (i, p, b), v in in_bytes.items(): s.s[0, i, p, b] = v
+    s = mksim(c, sims, m, opt)
+    if opt.endswith('2'):
+        for k, v in in_bytes.items():
+            if k[0] == 'first': s.s[0, k[1], k[2], k[3]] = v
+        s.s_to_c(); s.c_prop(); s.c_to_s()
+        s.s[0] = 0
+    for k, v in in_bytes.items():
+        if k[0] != 'first': s.s[0, k[0], k[1], k[2]] = v
     s.s_to_c(); s.c_prop(); s.c_to_s()
     ins = {(i, p, b): int(s.s[0, i, p, b]) for i in range(s.s_len) for p in range(3) for b in range(s.c.shape[-1])}
 
@@ -91,33 +119,34 @@ def concrete(recipe, sims, m, in_bytes, w_bytes):
 
 
 def _check_path(item, rep, eng):
-    recipe, sims, m = item
-    name = recipe[1]['name'] if recipe[0] == 'nl' else recipe[1]
+    recipe, sims, m = item[:3]
+    opt = item[3] if len(item) > 3 else ''
+    name = (recipe[1]['name'] if recipe[0] == 'nl' else recipe[1]) + (f'+{opt}' if opt else '')
     try:
         c = netlist.from_recipe(recipe)
-        s, ins = build(c, sims, m)
+        s, ins = build(c, sims, m, opt)
     except Exception as e:
         try:
-            concrete(recipe, sims, m, {}, {})
+            concrete(recipe, sims, m, {}, {}, opt)
             # the code under test does something the lane values cannot follow: concrete stimuli instead (not a solver verdict - said so)
             import random
             rng = random.Random(f'{name}/{m}')
-            c0 = netlist.from_recipe(recipe); s0 = LogicSim(c0, sims, m=m)
+            c0 = netlist.from_recipe(recipe); s0 = mksim(c0, sims, m, opt)
             for _ in range(24):
                 mb = {(i, p, b): rng.choice((0, 255, rng.randrange(256))) for i in range(s0.s_len) for p in range(3 if m == 8 else 2) for b in range(s0.c.shape[-1])}
                 wb = {}
                 for i in range(s0.s_len):
                     for b in range(s0.c.shape[-1]): wb[f'wf{i}_b{b}'] = mb[(i, 0, b)]; wb[f'wi{i}_b{b}'] = mb[(i, 1, b)]
-                bad = concrete(recipe, sims, m, mb, wb)
+                bad = concrete(recipe, sims, m, mb, wb, opt)
                 rep.counts['concrete_fallback_runs'] += 1
                 if bad:
                     rep.violation(f'circuit={name}/m{m}/{bad[0][0]}', f'sims={sims} m={m}: (what, node, byte, bad lanes)={bad[0]} (concrete stimulus; the symbolic run was not possible)',
-                                  {'recipe': recipe, 'sims': sims, 'm': m, 'in_bytes': [[list(k), v] for k, v in mb.items() if v], 'w_bytes': wb})
+                                  {'recipe': recipe, 'sims': sims, 'm': m, 'opt': opt, 'in_bytes': [[list(k), v] for k, v in mb.items() if v], 'w_bytes': wb})
                     return
             rep.error(f'symbolic run failed but concrete runs did not on {name} m={m}: {type(e).__name__}: {e} (24 concrete stimuli show no mismatch)')
         except Exception as e2:
             rep.violation(f'exception={type(e2).__name__}@{name}/m{m}', f'real code raised {type(e2).__name__}: {e2}',
-                          {'recipe': recipe, 'sims': sims, 'm': m, 'in_bytes': [], 'w_bytes': {}})
+                          {'recipe': recipe, 'sims': sims, 'm': m, 'opt': opt, 'in_bytes': [], 'w_bytes': {}})
         return
     wv = {}
 
@@ -145,13 +174,13 @@ def _check_path(item, rep, eng):
         mb = lanes.model_bytes(mdl, ins)
         wb = {n: mdl.eval(v, model_completion=True).as_long() for n, v in wv.items()}
         try:
-            bad = concrete(recipe, sims, m, mb, wb)
+            bad = concrete(recipe, sims, m, mb, wb, opt)
         except Exception as e:
             bad = [('exception', type(e).__name__, 0, 0)]
         if bad:
             kinds = sorted({x[0] for x in bad})
             rep.violation(f'circuit={name}/m{m}/{kinds[0]}', f'sims={sims} m={m}: (what, node, byte, bad lanes)={bad[0]}',
-                          {'recipe': recipe, 'sims': sims, 'm': m, 'in_bytes': [[list(k), v] for k, v in mb.items() if v], 'w_bytes': wb})
+                          {'recipe': recipe, 'sims': sims, 'm': m, 'opt': opt, 'in_bytes': [[list(k), v] for k, v in mb.items() if v], 'w_bytes': wb})
         else:
             rep.error(f'counterexample on {name} m={m} does not replay on the real code (model error)')
     else:
@@ -188,7 +217,7 @@ def planes_of(ins, i, m): return (ins[(i, 0, 0)], ins[(i, 1, 0)], ins[(i, 2, 0)]
 
 
 def replay(data):
-    bad = concrete(data['recipe'], data['sims'], data['m'], {tuple(k): v for k, v in data['in_bytes']}, data.get('w_bytes', {}))
+    bad = concrete(data['recipe'], data['sims'], data['m'], {tuple(k): v for k, v in data['in_bytes']}, data.get('w_bytes', {}), data.get('opt', ''))
     return bool(bad), str(bad[:2] if bad else 'no mismatch')
 
 
